@@ -825,7 +825,48 @@ def run(chk: harness.Check):
             ck = callee_key(t) or ""
             if "ops::Index" in ck or "ops::IndexMut" in ck:
                 census["index-call"] += 1
+    if chk.tier == "thorough":
+        thorough_extras(chk, F)
     chk.analysed = {"facts": th, "failure_sites": n_sites, "failure_keys": n_groups, "arith_sites": n_arith,
                     "loops": dict(stats), "census_not_armed": dict(census),
                     "functions": sum(1 for f in F.funcs.values() if f.crate in CRATES and not f.generated),
                     "generated_functions_trusted": sum(1 for f in F.funcs.values() if f.generated)}
+
+
+def thorough_extras(chk, F):
+    """(1) the same three inventories on the other feature configurations (code that the default build does not
+    compile); (2) census cross-reference with clippy's type-resolved restriction lints."""
+    import thorough
+    # NODEFAULT / AISLE are not usable: at the pinned commit only the default feature set builds (see DESIGN.md §10)
+    for cfg in ("RELEASE",):
+        try:
+            paths, th = harness.mir_facts(cfg)
+        except harness.SetupError as e:
+            chk.fail("C03.T-config", cfg, "", f"configuration {cfg} does not build: {str(e)[:300]}")
+            continue
+        Fc = Facts(paths)
+        sub = harness.Check("C03", "thorough")
+        d1_inventory(sub, Fc, pid="C03")
+        d2_arith(sub, Fc, pid="C03")
+        d3_progress(sub, Fc, pid="C03")
+        # table-driven rules may legitimately miss anchors that are compiled out; only new sites matter here
+        news = [v for v in sub.violations if v.rule != "anchor-missing" and "anchor-missing" not in v.message and "no longer" not in v.message
+                and not (v.rule == "C03.D1-inventory" and v.key == "cooklang::ast::build_ast|todo|todo")]
+        for v in news:
+            chk.fail(v.rule, f"[{cfg}] {v.key}", v.where, f"[features {cfg}] {v.message}")
+        chk.ok("C03.T-config", cfg, f"{cfg}: {sub.obligations} obligations re-evaluated on {len(Fc.funcs)} bodies, {len(news)} new site(s)")
+    census = thorough.clippy_census()
+    mine = Counter()
+    for s_ in inventory.failure_sites(F, CRATES):
+        if is_box_deref_site(F, s_):
+            continue
+        crate = "cooklang_bindings" if s_["region"].startswith("cooklang_bindings") else "cooklang"
+        mine[(crate, s_["kind"])] += 1
+    pairs = [("unwrap", "unwrap_used", "eq"), ("expect", "expect_used", "eq"), ("panic", "panic", "eq"), ("todo", "todo", "eq"), ("unreachable", "unreachable", "ge")]
+    for crate in ("cooklang", "cooklang_bindings"):
+        for kind, lint, mode in pairs:
+            a, b = mine[(crate, kind)], census[(crate, lint)]
+            ok = a == b if mode == "eq" else a >= b
+            chk.expect(ok, "C03.T-clippy-census", f"{crate}|{lint}", "",
+                       f"census mismatch in {crate}: the MIR inventory has {a} `{kind}` site(s), clippy::{lint} reports {b}: a site is invisible to one of the two extractors",
+                       sample=f"{crate}: {kind} {a} (MIR) vs {b} (clippy::{lint})")
